@@ -38,7 +38,7 @@ def rm_dir(d) -> None:
 # --------------------------------------------------------------------------
 
 
-def _write_grid_vars(nc: Dataset, sc) -> None:
+def _write_grid_vars(nc: Dataset, sc, dims_only: bool = False) -> None:
     jm, im = truth.dims(sc)
     v = truth.vert(sc)
     N = v["N"]
@@ -50,6 +50,8 @@ def _write_grid_vars(nc: Dataset, sc) -> None:
     nc.createDimension("eta_v", jm - 1)
     nc.createDimension("s_rho", N)
     nc.createDimension("s_w", N + 1)
+    if dims_only:
+        return
     dx, dy = truth.metric(sc)
     lon, lat = truth.lonlat(sc)
 
@@ -125,7 +127,7 @@ def write_forcing_file(path: Path, sc, frames: list[int], times=None, file_index
         idx = [truth.file_of_frame(sc, f) for f in frames]
         file_index = max(set(idx), key=idx.count)
     with Dataset(path, "w", format="NETCDF4") as nc:
-        _write_grid_vars(nc, sc)
+        _write_grid_vars(nc, sc, dims_only=bool(sc["frames"].get("grid_in_first_only")) and file_index > 0)
         nc.createDimension("ocean_time", None)
         tv = nc.createVariable("ocean_time", "f8", ("ocean_time",))
         packed = truth.file_storage(sc, file_index)[0] == "i2"
@@ -177,7 +179,8 @@ def release_columns(sc) -> list[str]:
     cols = ["mult"] if rel.get("mult_column", True) else []
     cols.append("release_time")
     cols += ["lon", "lat"] if rel.get("use_lonlat") else ["X", "Y"]
-    cols.append("Z")
+    if not rel.get("no_z"):     # a release file need not give a depth (doc/source/release.rst): the depth is then NaN
+        cols.append("Z")
     cols += [c["name"] for c in rel.get("extra", [])]
     order = rel.get("col_order")
     if order:      # a permutation of the column positions
